@@ -380,7 +380,8 @@ static void run_c06(const c06_case_t *cp, uint64_t seed, const char *caseid)
     double complex data[MAXF][MAXP * MAXP];
     double complex z0[MAXF][MAXP];
     double scale = pow(10.0, (double)cp->mag);
-    int perfreq = strcmp(cp->z0c, "perfreq") == 0;
+    /* without a frequency there is no per-frequency impedance to set */
+    int perfreq = strcmp(cp->z0c, "perfreq") == 0 && cp->nf > 0;
     int prec;
     char path1[256], path2[256], name2[256];
     char cfgkey[256];
